@@ -120,7 +120,7 @@ def corpus():
 
 
 def generate(rng, tier):
-    n = 1500 if tier == "quick" else 60000
+    n = 4000 if tier == "quick" else 60000
     return [gen_one(rng) for _ in range(n)]
 
 
@@ -131,7 +131,7 @@ def execute(cases, tier):
     from props import C14
     rng = random.Random(len(cases) * 7919 + 5)
     fcases = []
-    for _ in range(250 if tier == "quick" else 8000):
+    for _ in range(600 if tier == "quick" else 8000):
         fcases.append({"files": C14.gen_tree(rng), "main": "main.slt", "mode": "run", "default_answer": ["rows", "I", [["1"]]], "meta": {}})
     fres = corr.execute_file_family(C14, fcases, tier, vm_sample=8)
     for d in fres["disagreements"]:
